@@ -36,6 +36,29 @@ NOTES = {
     'C18-w3b': 'first pre-check: missed. C18 dimension: governing field DEFAULT and holding its default',
     'C20-w3a': 'patch ported by hand to the repaired fromDateTime (year padding touched the same lines); reported by C20',
     'C20-w3b': 'NOT reported, by design: the change makes asDateTime refuse "-hh" offsets on strings that fromDateTime never produces; C20 as stated speaks of datetime -> time type -> datetime and of the CER/DER encoders, not of reading arbitrary X.680 strings',
+    # wave 4
+    'C01-w4a': 'first pre-check: missed. Universe: explicitly tagged CHOICE whose own tag number is re-used by an alternative one level down',
+    'C01-w4b': 'first pre-check: missed. Universe: wide shallow values (150 constructed members / constructed strings in one encoding)',
+    'C03-w4b': 'first pre-check: missed. Universe: SETs mixing tag numbers below and above 31 / 64 / 128 and classes',
+    'C05-w4b': 'first pre-check: missed by C05 (needs another decode between polls). C12 part B now interleaves decoders of DIFFERENT values of one type (bit strings with different unused-bit counts), which reports it',
+    'C07-w4a': 'first pre-check: missed. Universe: ANY values that are indefinite-length TLVs under long-form identifiers',
+    'C07-w4b': 'first pre-check: missed. C07: one-shot decode from a raw stream that hands out at most 16 octets per read, followed by a 40-octet tail',
+    'C08-w4b': 'reported; a non-terminating change made the check itself run for hours (5 s of CPU per case): C08 now stops a worker after four hangs',
+    'C11-w4a': 'first pre-check: missed. C11 corpus: single elements of 2**16+1, 2**20+1, 2**24+1 octets',
+    'C11-w4b': 'first pre-check: missed by C11 (two decoders in turn on one source are C07 territory). C07 streaming clause: a new decoder per item on a source that cannot seek; the source must stay usable',
+    'C12-w4a': 'first pre-check: missed. C12 part B: a "need more data" object handed to one consumer is not handed out by the other decoder and does not change later',
+    'C12-w4b': 'first pre-check: missed, and instructive: the call carrying the option ran while the isolated baselines were being taken, so the sticky option tainted the baseline itself. Baselines of option-free calls are now taken first, in a process where no call has carried an option yet',
+    'C13-w4b': 'first pre-check: missed. C13 clause (6): a value object carrying only part of the tags assigned to a field of the tagged type is refused or encoded with the tags of the field',
+    'C14-w4a': 'first pre-check: missed. C14 derivation chains now contain constraints of different kinds spelled with the same arguments (VR(0,3) / SV(0,3))',
+    'C14-w4b': 'first pre-check: missed. C14 part (d): size constrained SEQUENCE OF / SET OF that does not declare its member type',
+    'C17-w4a': 'first pre-check: missed. C17: the same mapping with its keys in reverse order',
+    'C17-w4b': 'first pre-check: missed. Universe: binary REALs with exponents 310..1023 (inside the float range, beyond 308)',
+    'C18-w4a': 'first pre-check: missed. C18 shapes: SET OF / SEQUENCE OF whose member type is a user subclass of ANY',
+    'C18-w4b': 'first pre-check: missed. C18 dimension: a second open type field governed by an unmapped value after one that resolves',
+    'C19-w4a': 'first pre-check: missed. C19 alphabet: equal-length slice assignment whose last member is unacceptable (all or nothing)',
+    'C19-w4b': 'first pre-check: missed, and instructive: the state digest sorted the position -> member dict, so two objects differing only in insertion order were MERGED although the library iterates that dict (index(), sort()). The digest used for state hashing now keeps insertion order',
+    'C20-w4a': 'first pre-check: missed. C20 dates: both ends of the UTCTime range (1969, 2068); the text clause no longer assumes a century',
+    'C20-w4b': 'first pre-check: missed. C20 part (b): five ways of handing a time to the encoder (value object, text + type, value object + type, SEQUENCE member from a mapping, SEQUENCE OF member from a list) must agree',
 }
 for sid, note in NOTES.items():
     p = os.path.join(ROOT, 'seeded', sid, 'meta.json')
